@@ -114,7 +114,7 @@ strings = {
     # pointer-hostile keys
     "/": "/", "~": "~", "~0": "~0", "~1": "~1", "~01": "~01", "%": "%", "%25": "%25",
     " ": " ", "0": "0", "01": "01", "1": "1", "-": "-", "a/b": "a/b", "a~b": "a~b",
-    "$ref": "$ref", "#": "#", "?": "?",
+    "$ref": "$ref", "#": "#", "?": "?", "B": "B", "aa": "aa", "10": "10", "9": "9", "z": "z",
 }
 patterns = {
     "^a": "^a", "b$": "b$", "a.c": "a.c", "^[ab]+$": "^[ab]+$", "b": "b",
@@ -170,6 +170,9 @@ out.append("\\* NumText[n]: the decimal text a json.Number holds for the value")
 out.append("NumText == " + fun([(str(n["rank"]), tla_str(n["exact"])) for n in nums]))
 out.append("StrIds == {" + ", ".join(tla_str(s) for s in strings) + "}")
 out.append("CpLen == " + fun([(tla_str(s), str(n)) for s, n in cplen.items()]))
+order = sorted(strings, key=lambda i: strings[i].encode("utf-8"))
+out.append("\\* StrOrd[s]: rank of the string in ascending byte order (what Go's slices.Sort uses)")
+out.append("StrOrd == " + fun([(tla_str(s), str(order.index(s))) for s in strings]))
 out.append("PatIds == {" + ", ".join(tla_str(s) for s in patterns) + "}")
 out.append("Match == " + fun([(tla_str(p), fun([(tla_str(s), tla_bool(b)) for s, b in m.items()])) for p, m in match.items()]))
 out.append("====")
